@@ -1,10 +1,10 @@
 from props import P
 
 CFG = P(
-        harness=["harness/C05.cc", "harness/C05_r2.cc"], harness_deps=["harness/C05_common.hh", "harness/C04_jsonref.hh"],
+        harness=["harness/C05.cc", "harness/C05_r2.cc", "harness/C05_r5.cc"], harness_deps=["harness/C05_common.hh", "harness/C04_jsonref.hh"],
         srcs=["JSON.cc", "Strings.cc", "Filesystem.cc", "Process.cc", "Time.cc", "Encoding.cc"],
         oracle="C05", flags=[],
-        deadline={"quick": 900, "thorough": 10800},
+        deadline={"quick": 2700, "thorough": 10800},
         rule="a case is (a) one input text given to a set of entries x {default, strict} from exact-size heap blocks - the core set is the three entry points (6 parses); the full set adds the three "
              "overloads with the mode argument defaulted, a reader positioned at offset 10 of a larger buffer and a sub-reader over a window of a larger buffer (13 parses); the contexts section "
              "adds readers built by the other StringReader constructors and offset 1 (19 parses); every parse is a transition - or (b) one history of 2-3 parse calls / one repeated-call history / "
@@ -22,26 +22,34 @@ CFG = P(
                      "bytes at every position, lists of 0..65536 and dictionaries of 0..4096 elements; hist: every ordered pair and every A-B-A history over 376 steps (66 texts x 3 entry points x 2 "
                      "modes), every ordered triple over 96 steps, same buffer address and std::string object for every call; soak: each of the 376 steps repeated 20 000 times (200 for 500-deep texts) "
                      "then all 184 accepted steps, 2 round-robin histories of 40 rounds; contexts: 111 texts x {8 calling contexts, 6 errno values} x 11 entries; streams: every sequence of 2-3 values "
-                     "out of 14 x 7 separators x 2 modes read from one reader; all x {default, strict}",
+                     "out of 14 x 7 separators x 2 modes read from one reader; numgrid (round 5): decimal numbers as a grid digit-string shape x exponent - <I digits>[.<F digits>] for I in {1,2,15..20,38..40,"
+                     "76..80,150,299..312,330,400,700} x F in {0,1,2,17,40,80,310,700}, 0.<Z zeros><S digits> for Z in {0,1,2,17,80,299,300,307,308,309,323,324,400,700} x S in {1,2,17,40,310,700}, "
+                     "1000/2500/5000-digit integer parts and zero runs (368 shapes) x 4 digit fills (1000.., 999.., 777.., 10..01) x sign x {no exponent, 63 raw exponents 0..+-5000 around +-308, "
+                     "+-324, +-400, +-1000, +-5000, up to 30 exponents chosen so that the value is 1e-340..1e330 on a 30-step ladder} = 258 356 number texts through the full entry set, plus 5 816 "
+                     "documents holding all in-range numbers of one (shape, fill, sign) as the elements of one list / the values of one dictionary; all x {default, strict}",
             "thorough": "bytes16 up to length 6 (17.9 M strings); bytes28: all strings of length <=5 over the full 28-symbol alphabet (17.9 M); grammar/ext over all derivations up to 7 tokens with the "
                         "full atom set and 8-9 tokens with the reduced one (truncations of documents beyond the quick bound through the core entry set); mutate with 44 symbols; deep as quick; allbytes "
                         "with 12 two-hole templates; bounds plus 65535/65537-element and 65537-byte sizes; hist: ordered triples over all 366 non-deep steps (49 M histories); soak: 200 000 repetitions "
-                        "(2 000 for deep texts), 400 round-robin rounds; streams of up to 4 values",
+                        "(2 000 for deep texts), 400 round-robin rounds; streams of up to 4 values; numgrid plus 6 shapes with 1000/2500/5000 digits on both sides of the point",
         },
         explanation="E-ENUM over input texts, call histories and calling contexts; one memoryless oracle (c05::Judge) for every call: reference models R_std (RFC 8259) and R_ext (R_std + the four "
                     "extensions documented in JSON.hh) from harness/C04_jsonref.hh decide whether the text is standard, extension-only, value+trailing-data or don't-care; exceptions other than "
                     "JSON::parse_error / std::out_of_range, wrong values, strict-mode acceptance of extensions, accepted trailing data and wrong reader extents are violations; ASan on exact-size "
                     "buffers (and a poisoned buffer tail in histories) decides 'reads nothing outside the input', and a reader whose buffer continues before/after the text must behave exactly like the "
                     "reader over the exact copy. Histories, soak, contexts and streams apply the same oracle to every call, so any dependence on earlier calls, thread, errno or calling context is a "
-                    "violation of the same key family. Every text of the text families is replayed through Python json.loads by oracles/C05.py to bind R_std.",
+                    "violation of the same key family. Every text of the text families is replayed through Python json.loads by oracles/C05.py to bind R_std. Number values: R_std converts "
+                    "with glibc strtod (correctly rounded); in numgrid every in-range value is also compared bit-exactly with std::from_chars inside the harness and with Python float() "
+                    "in the Python stage (17 significant digits), so the reference value of a long-mantissa / large-exponent numeral is bound to two independent correctly rounded conversions.",
         assumptions=[
             "don't-care beyond totality (executed, result not compared): texts neither R_std nor R_ext accepts (the library may be lenient: leading zeros, '+', raw control characters, \\x escapes, "
             "bare '-', 1. and the like); integers outside int64; fraction/exponent numbers that are not finite normal doubles; \\u escapes above U+00FF; duplicate keys; nesting above 500; "
             "comments terminated by a bare CR",
-            "int/float kind of the parsed number is not compared (the statement asks for the value): an integer literal must come back exactly, a fraction/exponent literal to relative 1e-9",
+            "int/float kind of the parsed number is not compared (the statement asks for the value): an integer literal must come back exactly, a fraction/exponent literal to relative 1e-9 "
+            "(also for numerals of up to 5000 digits and exponents up to +-5000 whose value is a finite normal double: the statement bounds the number, not its spelling); numerals whose value "
+            "overflows, underflows to zero or is denormal are executed for totality only",
             "reader-extent and trailing-data rules are applied only when the byte after the value is end of text, whitespace, ',', ']' or '}' (so the token boundary is unambiguous)",
             "strict-mode rejection of an extension is checked on the string entry points as 'throws'; on the reader entry point as 'throws or stops before the end of the extension construct'",
-            "texts containing an exponent of 7 or more significant digits are classified and bound to Python but not executed (outside double range; the parser's exponent loop is linear in the "
+            "exponent fields are enumerated up to +-5000 in numgrid (and up to 999999 with short mantissas in bounds); texts containing an exponent of 7 or more significant digits are classified and bound to Python but not executed (outside double range; the parser's exponent loop is linear in the "
             "exponent value, up to 2^31 iterations - it terminates, in seconds)",
             "documented extensions are read from JSON.hh: trailing commas, hexadecimal integers (-?0x[0-9A-Fa-f]+), n/t/f, // comments up to end of line; nothing else is required of default mode",
             "the overloads called without the mode argument must behave as default mode (JSON.hh: extensions 'are enabled by default')",
@@ -57,11 +65,14 @@ CFG = P(
         level_text="Every byte string over the stated alphabet up to the length bound, every derivation of the JSON grammar up to the token bound (with every truncation and delimiter/junk suffix), "
                    "every extension rewrite, every single-byte edit of the corpus, every byte value in every syntactic position of the templates, and every boundary-size document is parsed by the "
                    "code compiled from the repository through all three entry points (explicit and defaulted mode argument, readers at an offset and over a window) in default and strict mode, from "
+                   "exact-size unterminated heap buffers under AddressSanitizer; every numeral of the digit-shape x exponent grid (digit strings of 1..5000 digits on either side of the point x "
+                   "exponents 0..+-5000 x 4 digit fills x sign, alone and as list element / dictionary value) likewise, from "
                    "exact-size unterminated heap buffers under AddressSanitizer. Every ordered pair / A-B-A / triple of calls over the step set, every long repetition, every calling context and every "
                    "value stream inside the stated bounds is executed and each call compared with the memoryless reference. Totality (only documented exceptions, no out-of-bounds read), standard "
                    "conformance with reference values, strict-mode rejection of each documented extension, trailing-data rejection and reader extent are decided for each call. Within the bounds this "
                    "is a coverage statement, not a sample.",
         level_note="Trusted: the reference recognisers R_std/R_ext in harness/C04_jsonref.hh (R_std is bound to Python json.loads on every text of the text families, count in "
-                   "traces_validated_against_impl); AddressSanitizer for bounds. Not covered: texts longer than the length bound that are not grammar-generated, template fillings, boundary documents or "
-                   "single edits of the corpus; histories longer than the stated bounds; termination is observed per case with a 120-300 s stall watchdog, not proved.",
+                   "traces_validated_against_impl); AddressSanitizer for bounds. Not covered: texts longer than the length bound that are not grammar-generated, template fillings, boundary documents, number-grid numerals or "
+                   "single edits of the corpus; numerals with digit fills other than the four listed or digit counts / exponents between the ladder steps; values are compared to relative 1e-9, not "
+                   "to the last bit; histories longer than the stated bounds; termination is observed per case with a 120-300 s stall watchdog, not proved.",
     )
